@@ -267,6 +267,19 @@ impl Stats {
             );
             std::process::exit(2);
         }
+        // the generated shaders are valid and inside the documented feature set: a tree that answers
+        // a large share of them with an error leaves this property (which speaks about accepted
+        // shaders) nothing to judge. That is not a violation of this property (typed errors are C11's
+        // and C17's subject) but it must not look like a pass either.
+        let rejected: u64 = self.skipped.iter().filter(|(k, _)| k.starts_with("sut_Err")).map(|(_, v)| *v).sum();
+        if rejected >= 20 && rejected * 4 > self.evaluations + rejected {
+            eprintln!(
+                "COVERAGE-COLLAPSED property={property}: the generator returned an error for {rejected} of {} valid generated shaders (e.g. {}); nothing conclusive can be said about this property",
+                self.evaluations + rejected,
+                self.skipped.iter().find(|(k, _)| k.starts_with("sut_Err")).map(|(k, _)| k.as_str()).unwrap_or("")
+            );
+            std::process::exit(2);
+        }
     }
 }
 
@@ -536,7 +549,7 @@ pub fn fuzz_choices(run: &Run, stats: &mut Stats, len: (usize, usize), corpus_n:
     let build = std::process::Command::new("cargo")
         .current_dir(format!("{VERIF_DIR}/harness"))
         .env("CARGO_NET_OFFLINE", "true")
-        .args(["+nightly", "fuzz", "build", "-s", "none", "wide"])
+        .args(["+nightly", "fuzz", "build", "-s", "none", "--no-cfg-fuzzing", "wide"])
         .output();
     match build {
         Ok(o) if o.status.success() => {}
